@@ -27,7 +27,14 @@ ASSUMPTIONS = [
 ]
 
 BOUNDARY = [0, 1, 99998, 99999, 100000, 100001, 199998, 199999, 200000, 9999999, 10000000]
-NAME = st.text(st.characters(min_codepoint=33, max_codepoint=126), min_size=1, max_size=5)
+# any printable text of 1..5 characters; a fifth of the names look like something else: numbers, full-width names,
+# names starting with digits, with a sign, a dot, an exponent
+NUMBERLIKE = ["1", "12", "100", "4", "0.5", "1e3", "-2", "+7", "2PG", "3HB", "HO6AB", "GLYCN", "00012", "1.0e2", "nan", "inf"]
+NAME = st.one_of(st.text(st.characters(min_codepoint=33, max_codepoint=126), min_size=1, max_size=5),
+                 st.text(st.characters(min_codepoint=33, max_codepoint=126), min_size=1, max_size=5),
+                 st.text(st.characters(min_codepoint=33, max_codepoint=126), min_size=1, max_size=5),
+                 st.text(st.characters(min_codepoint=33, max_codepoint=126), min_size=1, max_size=5),
+                 st.sampled_from(NUMBERLIKE))
 NUMBER = st.one_of(st.sampled_from(BOUNDARY), st.integers(0, 10 ** 7), st.integers(0, 3000))
 
 
